@@ -105,8 +105,10 @@ pub fn explore(r: &mut Runner, name: &str, groups: &[Vec<HCall>], maxlen: usize,
     explore_with(r, name, groups, maxlen, &|c: &HCall| c.exec(), judge, base_index)
 }
 
-/// as `explore`, with the way a prefix call is executed supplied by the caller (C11 executes it in both build configurations)
+/// as `explore`, with the way a prefix call is executed supplied by the caller (C11 executes it in both build configurations).
+/// The thorough tier explores one call deeper (`maxlen + 1`).  Work is split by (alphabet, first call of the sequence).
 pub fn explore_with(r: &mut Runner, name: &str, groups: &[Vec<HCall>], maxlen: usize, exec: Exec, judge: Judge, base_index: u64) {
+    let maxlen = if r.quick() { maxlen } else { maxlen + 1 };
     let rec = r.recorder();
     let mut total = 0u64;
     for g in groups {
@@ -116,25 +118,29 @@ pub fn explore_with(r: &mut Runner, name: &str, groups: &[Vec<HCall>], maxlen: u
         }
     }
     let ng = groups.len();
+    // work units: (group, first call)
+    let units: Vec<(usize, usize)> = groups.iter().enumerate().flat_map(|(gi, g)| (0..g.len()).map(move |f| (gi, f))).collect();
     r.notes.push(format!("{}: {} call alphabets of {} calls on average; ALL sequences of length 2..={} over each alphabet = {} histories, each on a fresh thread, the property's judge applied to the last call (calls that fail on an empty history are left to the other phases)", name, ng, groups.iter().map(|g| g.len()).sum::<usize>() / ng.max(1), maxlen, total));
-    r.par(name, ng, total, |gi, l| {
+    r.par(name, units.len(), total, |ui, l| {
+        let (gi, first) = units[ui];
         let g = &groups[gi];
         let n = g.len();
         // isolated verdicts (empty history, fresh thread)
         let alone: Vec<bool> = g.iter().map(|c| run_sequence_with(&[*c], exec, judge, &mut Local::default()).is_fail()).collect();
-        let mut k = 0u64;
+        let mut before = 0u64; // sequences of shorter lengths (all first calls), for a stable index
         for len in 2..=maxlen {
-            let cnt = n.pow(len as u32);
-            for t in 0..cnt {
+            let tails = n.pow(len as u32 - 1);
+            for t in 0..tails {
                 let mut rem = t;
                 let mut seq: Vec<HCall> = Vec::with_capacity(len);
-                for _ in 0..len {
+                for _ in 1..len {
                     seq.push(g[rem % n]);
                     rem /= n;
                 }
+                seq.push(g[first]);
                 seq.reverse();
-                let last = (t % n) as usize;
-                k += 1;
+                let last = t % n;
+                let k = before + (first * tails + t) as u64 + 1;
                 if alone[last] {
                     l.transitions += 1;
                     continue;
@@ -142,6 +148,7 @@ pub fn explore_with(r: &mut Runner, name: &str, groups: &[Vec<HCall>], maxlen: u
                 let v = run_sequence_with(&seq, exec, judge, l);
                 rec.record(l, base_index + ((gi as u64) << 24) + k, wrap(v, &seq));
             }
+            before += (n.pow(len as u32)) as u64;
         }
     });
 }
